@@ -1,4 +1,4 @@
-import Feox.Fmt.MetaRT
+import Feox.Fmt.JournalRT
 import Feox.Fmt.Lemmas
 import Feox.Fmt.Recover
 /-!
@@ -484,5 +484,25 @@ theorem metadata_roundtrip (m : Meta) (h : m.Fits) : Meta.rawDecode m.encode = m
 /-- … and the image has the documented size -/
 theorem metadata_image_size (m : Meta) (h : m.Fits) : m.encode.length = METADATA_ENCODED_SIZE :=
   meta_encode_length m h
+
+/-- **Journal slot round trip**: for every generation, state and extent list that the encoders
+accept and that is valid for the device (`JournalOK`), `decode_slot` of the stamped image —
+followed by whatever the rest of the 3-block slot holds — returns exactly that generation, slot
+number and extent list (checksum and complement verify, every entry is read back). -/
+theorem journal_roundtrip (gen state total slot : Nat) (exts : List (Nat × Nat)) (tail : Bytes)
+    (h : JournalOK gen state total exts) :
+    decodeSlot (stampJournal (journalBody gen state exts) ++ tail) total slot =
+      .ok { generation := gen, slot := slot, extents := exts } :=
+  journal_slot_roundtrip gen state total slot exts tail h
+
+/-- the CLEAR record of `encode_clear` in particular -/
+theorem journal_clear_roundtrip (gen total slot : Nat) (tail : Bytes) (hg : 0 < gen ∧ gen < 2 ^ 64) :
+    ∃ img, encodeClear gen = .ok img ∧
+      decodeSlot (img ++ tail) total slot = .ok { generation := gen, slot := slot, extents := [] } := by
+  refine ⟨stampJournal (journalBody gen JOURNAL_CLEAR []), ?_, ?_⟩
+  · have : (gen == 0) = false := by simp; omega
+    simp [encodeClear, this]
+  · exact journal_slot_roundtrip gen JOURNAL_CLEAR total slot [] tail
+      ⟨hg, Or.inl ⟨rfl, rfl⟩, by decide, by simp, by simp, by decide⟩
 
 end Feox.C10
